@@ -52,6 +52,12 @@ type ApplicationContext struct {
 	ZookeeperConnected bool
 	ZookeeperExpired   *sync.Cond
 
+	// The number of session expirations seen so far. It is incremented, holding ZookeeperExpired.L, before the
+	// condition is broadcast, so that a waiter that reads it (holding the same lock) before it starts whatever depends
+	// on the session, and compares it again before it calls Wait, cannot miss an expiration that was broadcast in
+	// between: a sync.Cond does not remember broadcasts.
+	ZookeeperExpirations uint64
+
 	// This is the channel over which any module should send a consumer group evaluation request. It is serviced by the
 	// evaluator Coordinator, and passed to an appropriate evaluator module.
 	EvaluatorChannel chan *EvaluatorRequest
